@@ -84,61 +84,65 @@ def enclosing_loops(fn, stmt):
     return loops
 
 
-def rule_tags(ctx, rule):
-    ctx.rule(rule, "tag alphabet of the serialisation: SERIALIZED_LRU_SPLITTER_RE, applied (constant folding with the standard re) to 'x<sep>T:y' for every printable ASCII character T, splits exactly when T is one of the stem tags {s,t,h,p,q,f,u,w}, and never consumes anything but the separator (what the emitter writes and the reader consumes is decided by the model tables)")
-    import re as _re
+SER_CELLS = [
+    ["s:http", "h:com", "h:a", "p:x"], ["s:http"], ["s:http", "h:com", "p:"], ["s:http", "h:com", "p:", "p:", "p:a"], ["s:https", "t:8080", "h:com", "h:a", "p:a", "q:x=1&y", "f:top", "u:me", "w:pw"],
+    ["s:http", "h:com", "p:A|B"], ["s:http", "h:com", "p:css", "q:family=Roboto|Open+Sans"], ["s:http", "h:com", "f:a|b|c"], ["s:http", "h:com", "p:a:b", "q:t=s:x"], ["h:[::1]", "p:x"], ["s:http", "h:com", "p:caf\u00e9"],
+]
+
+
+def _ser_fns(ctx):
+    from ..microeval import run_function, Raised
     ser = ctx.repo.mod("lru.serialization")
-    rx = ctx.repo.const(ser, "SERIALIZED_LRU_SPLITTER_RE")
-    ctx.rx("ural.lru.serialization.SERIALIZED_LRU_SPLITTER_RE")
-    site = ser.site(ctx.repo.const_node(ser, "SERIALIZED_LRU_SPLITTER_RE"))
-    crx = _re.compile(rx.pattern, rx.flags)
-    sep = None
-    for cand in "|\t;,/ ":
-        if crx.split("x%sh:y" % cand) == ["x", "h:y"]:
-            sep = cand
-            break
-    ctx.ob(rule, "splitter-separator", sep is not None, "SERIALIZED_LRU_SPLITTER_RE does not split 'x<sep>h:y' into ['x', 'h:y'] for any single-character separator", site)
-    if sep is not None:
-        accepted = set(chr(c) for c in range(33, 127) if crx.split("x%s%s:y" % (sep, chr(c))) == ["x", "%s:y" % chr(c)])
-        ctx.ob(rule, "splitter-tags", accepted == set(TAGS), "the splitter cuts before the tags %s while the stems are tagged %s: a serialized LRU is split at the wrong places" % (sorted(accepted), TAGS), site,
-               sample="splits before %s" % sorted(accepted))
+    sref = ser.func("serialize_lru")
+    uref = ser.func("unserialize_lru")
+    ctx.fn(sref.qualname, uref.qualname)
+
+    def run(ref, arg):
+        try:
+            v = run_function(ctx.repo, ref, [arg])
+        except Raised as e:
+            return "raises " + e.name
+        return list(v) if isinstance(v, (list, tuple)) else v
+    return ser, sref, uref, run
+
+
+def rule_tags(ctx, rule):
+    ctx.rule(rule, "tag alphabet of the serialisation: unserialize_lru, interpreted on 'x<sep>T:y<sep>' for every printable ASCII character T, splits exactly when T is one of the stem tags {s,t,h,p,q,f,u,w} and consumes nothing but the separator (the separator is the one serialize_lru writes)")
+    ser, sref, uref, run = _ser_fns(ctx)
+    site = ser.site(uref.node)
+    try:
+        joined = run(sref, ["a", "b"])
+        sep = joined[1] if isinstance(joined, str) and len(joined) == 4 and joined[0] == "a" and joined[2] == "b" and joined[3] == joined[1] else None
+        ctx.ob(rule, "splitter-separator", sep is not None, "serialize_lru(['a', 'b']) gives %r: not <a><sep><b><sep> for a one-character separator" % (joined,), ser.site(sref.node))
+        if sep is not None:
+            accepted = set(chr(c) for c in range(33, 127) if run(uref, "x%s%s:y%s" % (sep, chr(c), sep)) == ["x", "%s:y" % chr(c)])
+            whole = set(chr(c) for c in range(33, 127) if run(uref, "x%s%s:y%s" % (sep, chr(c), sep)) == ["x%s%s:y" % (sep, chr(c))])
+            ctx.ob(rule, "splitter-tags", accepted == set(TAGS) and accepted | whole == set(chr(c) for c in range(33, 127)),
+                   "unserialize_lru cuts before the tags %s while the stems are tagged %s (and mangles 'x%sT:y%s' for T in %s): a serialized LRU is split at the wrong places" % (sorted(accepted), TAGS, sep, sep, sorted(set(chr(c) for c in range(33, 127)) - accepted - whole)[:5]),
+                   site, sample="splits before %s" % sorted(accepted))
+    except Unknown as e:
+        ctx.undecided(rule, "serialisation not interpretable: %s" % e)
+        sep = None
     return sep
 
 
 def rule_serialization(ctx, rule):
-    ctx.rule(rule, "serialisation: serialize_lru is sep.join(stems) + sep with the separator the splitter consumes; unserialize_lru strips the trailing separator before splitting")
-    ser = ctx.repo.mod("lru.serialization")
-    ex = P.Extractor(ctx.repo, atomic=set())
-    ref = ser.func("serialize_lru")
-    ctx.fn(ref.qualname)
-    t = ex.result_term(ex.function(ref))
-    ok = t[0] == "binop" and t[1] == "Add" and t[3][0] == "const" and t[2][0] == "method" and t[2][1] == "join" and t[2][2] == t[3] and t[2][3] == (("param", "stems"),)
-    sep = t[3][1] if ok else None
-    ctx.ob(rule, "serialize/sep.join+sep", ok, "serialize_lru is not `sep.join(stems) + sep`: %s (a serialized LRU must end with the separator so that stem-prefix = string-prefix)" % P.show(t, maxdepth=4), ser.site(ref.node))
-    rx = ctx.repo.const(ser, "SERIALIZED_LRU_SPLITTER_RE")
-    if sep is not None:
-        import re._parser as sp
-        import re._constants as sc
-        try:
-            first = list(sp.parse(rx.pattern, rx.flags))[0]
-        except Exception:
-            first = None
-        consumed = chr(first[1]) if first is not None and first[0] is sc.LITERAL else None
-        ctx.ob(rule, "serialize/separator-agrees-with-splitter", consumed == sep, "serialize_lru joins with %r but the splitter pattern %r consumes %r" % (sep, rx.pattern, consumed), ser.site(ref.node))
-    ref = ser.func("unserialize_lru")
-    ctx.fn(ref.qualname)
-    t = ex.result_term(ex.function(ref))
-    # SPLITTER.split(lru.rstrip(sep))
-    ok = False
-    arg = None
-    op = F.regex_op(t)
-    if op is not None and op[1] == "split" and op[0] == "ural.lru.serialization.SERIALIZED_LRU_SPLITTER_RE" and op[2]:
-        arg = op[2][0]
-    elif t[0] == "call" and t[1] == "re.split" and len(t[2]) >= 2:
-        arg = t[2][1]
-    if arg is not None:
-        ok = arg[0] == "method" and arg[1] == "rstrip" and arg[2] == ("param", "lru") and arg[3] == (("const", sep),)
-    ctx.ob(rule, "unserialize/rstrip-then-split", ok, "unserialize_lru is not SPLITTER.split(lru.rstrip(%r)): %s" % (sep, P.show(t, maxdepth=4)), ser.site(ref.node))
+    ctx.rule(rule, "serialisation: serialize_lru, interpreted on stem lists of every shape (one stem, empty path stems, every tag, a '|' or a 'tag:'-looking text inside a stem, non-ASCII), writes sep.join(stems) + sep, and unserialize_lru gives the stems back (the trailing separator is not a stem; a separator that is not followed by a tag stays inside its stem)")
+    ser, sref, uref, run = _ser_fns(ctx)
+    sep = None
+    try:
+        for stems in SER_CELLS:
+            got = run(sref, list(stems))
+            if isinstance(got, str) and got.endswith(got[-1:]) and sep is None and len(got) > 0:
+                sep = got[-1]
+            exp = "".join(x + (sep or "|") for x in stems)
+            ctx.ob(rule, "serialize/%s" % "|".join(stems)[:50], got == exp, "serialize_lru(%r) gives %r, expected %r (a serialized LRU ends with the separator so that stem-prefix = string-prefix)" % (stems, got, exp), ser.site(sref.node), witness=repr(stems))
+            # 'q:t=s:x' holds a separator-free 'tag:' text; a stem holding '<sep>tag:' is ambiguous by design and not in the cells
+            back = run(uref, exp)
+            ctx.ob(rule, "unserialize/%s" % "|".join(stems)[:50], back == list(stems), "unserialize_lru(%r) gives %r, expected %r" % (exp, back, list(stems)), ser.site(uref.node), witness=exp,
+                   sample="%r -> %r" % (exp, back) if "A|B" in exp else None)
+    except Unknown as e:
+        ctx.undecided(rule, "serialisation not interpretable: %s" % e)
     return sep
 
 
@@ -348,7 +352,7 @@ LRU_CELLS = [
 ]
 LRU_BOTH = ["http://b.a.co.uk/x", "http://a.co.uk:8080/"]
 LRU_SUFFIX_CELLS = [
-    "http://b.a.co.uk/x", "http://co.uk/", "http://a.co.uk:8080/", "http://A.B.Co.UK/", "http://Stra\u00dfe.co.uk/", "http://a.x.ck/", "http://x.ck/", "http://a.www.ck/",
+    "http://b.a.co.uk/x", "http://co.uk/", "http://a.co.uk:8080/", "http://A.B.Co.UK/", "http://.a.co.uk/x", "http://Stra\u00dfe.co.uk/", "http://a.x.ck/", "http://x.ck/", "http://a.www.ck/",
     "http://foo.notatld/x", "http://127.0.0.1/x", "http://[::1]:8080/x", "http://u:p@b.a.github.io/x?q#f",
 ]
 
